@@ -45,7 +45,7 @@ class G:
         r = self.rng
         kinds = ["map", "map", "filter", "accumulate", "slice", "partition", "partition_unique", "sliding_window",
                  "unique", "flatten", "pluck", "collect", "union", "zip", "combine_latest", "zip_latest",
-                 "starmap", "sink", "sink", "source"]
+                 "starmap", "sink", "sink", "source", "plain"]
         k = r.choice(kinds)
         if k == "partition" and not self.allow_partition:
             k = "sliding_window"
@@ -53,6 +53,10 @@ class G:
         if k == "source":
             if sum(1 for n in self.nodes if n["kind"] == "source") < 3:
                 self.add({"kind": "source", "ups": []}, "I")
+            return
+        if k == "plain":
+            u = self.pick_up()
+            self.add({"kind": "plain", "ups": [u]}, self.types[u])
             return
         if k == "map":
             u = self.pick_up()
@@ -173,7 +177,8 @@ class G:
                     lits = [[r.randint(0, m), r.choice([9, "k"])]]
                     if r.random() < 0.3:
                         lits.append([lits[0][0] + r.randint(1, 2), 8])
-                self.add({"kind": "zip", "ups": ups, "literals": lits}, "T" if tys == {"I"} and not lits else "X")
+                nd = {"kind": "zip", "ups": ups, "literals": lits}
+                self.add(nd, "T" if tys == {"I"} and not lits else "X")
             elif k == "combine_latest":
                 eo = None
                 if r.random() < 0.5:
